@@ -111,6 +111,12 @@ def derivativeOk (x : Fn) (vs : List String) (y : Fn) : Bool :=
   agreeOn (union (union x.inputs vs) y.inputs)
     (fun ρ => (assignments vs).foldl (fun acc a => acc != x.den (override ρ a)) false) y.den
 
+/-- the assignment the original function is read at: every key reads its replacement at ρ -/
+def composedEnv (m : List (String × Fn)) (ρ : String → Bool) : String → Bool :=
+  fun n => match lookup m n with
+    | some g => g.den ρ
+    | none => ρ n
+
 /-- C08 -/
 def substituteOk (x : Fn) (m : List (String × Fn)) (y : Fn) : Bool :=
   let keys := m.map (·.1)
@@ -122,9 +128,7 @@ def substituteOk (x : Fn) (m : List (String × Fn)) (y : Fn) : Bool :=
    | .E _ => true
    | _ => sameSet y.inputs (union (diff x.inputs keys) valueInputs)) &&
   agreeOn (union (union (union x.inputs keys) valueInputs) y.inputs)
-    (fun ρ => x.den fun n => match lookup m n with
-      | some g => g.den ρ
-      | none => ρ n) y.den
+    (fun ρ => x.den (composedEnv m ρ)) y.den
 
 def substitutePanicAllowed (x : Fn) (m : List (String × Fn)) : Bool :=
   x.kind == 2 && m.any fun kv => kv.2.inputs.contains kv.1
